@@ -316,6 +316,45 @@ func runC13Hist(t *testing.T, c CacheHistCase) (*h.Violation, h.Info) {
 			if installs && cache.NumWriteCalls() == w0 {
 				return h.V("written-after-installing-poll", "step %d: a poll installed new values but did not write the cache", i), info
 			}
+		case "pollfail":
+			// One declared secret cannot be fetched during this poll (a blip, a withdrawn grant) while
+			// others may have new versions. Whether the store then installs what it did get is its
+			// choice - but whatever it serves afterwards, the cache holds too.
+			if faulty || len(declared) == 0 {
+				continue
+			}
+			failName := declared[(i+len(c.Ops))%len(declared)]
+			svc.SetScript(failName, []fake.Beh{{Kind: "err"}})
+			tick.Poll()
+			svc.SetScript(failName, nil)
+			doc, err := model.DecodeCacheStrict(cache.Data())
+			if err != nil {
+				return h.V("cache-document-well-formed", "step %d pollfail: %v", i, err), info
+			}
+			for _, dn := range declared {
+				hd := st.Secret(dn)
+				if hd == nil {
+					continue
+				}
+				if e, ok := doc[dn]; !ok || !bytes.Equal(e.Value, hd.Get()) {
+					return h.V("document-holds-latest-version-and-bytes", "step %d: after a poll during which %q could not be fetched the store serves %q for the declared secret %q, the cache document holds %q (present=%v): a store restarted from it during an outage would serve the older value", i, failName, hd.Get(), dn, e.Value, ok), info
+				}
+				handles[dn] = hd // (the read is a read: it pins the secret and stamps it)
+				if m := known[dn]; m != nil {
+					m.last = clock.Unix()
+				}
+			}
+			// the model follows the document (what the store installed of the rest is its choice)
+			for n, m := range known {
+				if e, ok := doc[n]; ok {
+					m.ver = e.Version
+				} else {
+					delete(known, n)
+				}
+			}
+			info.Class("a-poll-that-fails-for-one-declared-secret")
+			lastKind = o.Kind
+			continue
 		case "restart":
 			st.Close() // the poller stops: the cache must be flushed with current stamps
 			if cache.NumWriteCalls() == w0 {
@@ -418,7 +457,7 @@ var c13hist = &h.Campaign[CacheHistCase]{
 	Gen: func(rt *rapid.T) CacheHistCase {
 		c := CacheHistCase{Declared: rapid.SampledFrom([][]string{{"d1"}, {"d1", "d2"}, {"d1", "empty"}}).Draw(rt, "declared")}
 		c.Ops = rapid.SliceOfN(rapid.Custom(func(rt *rapid.T) COp {
-			o := COp{Kind: rapid.SampledFrom([]string{"lookup", "lookup", "watch", "set", "set", "poll", "poll", "read", "advance", "clockback", "restart"}).Draw(rt, "kind"), Name: rapid.SampledFrom(c13Names).Draw(rt, "name")}
+			o := COp{Kind: rapid.SampledFrom([]string{"lookup", "lookup", "watch", "set", "set", "poll", "poll", "pollfail", "read", "advance", "clockback", "restart"}).Draw(rt, "kind"), Name: rapid.SampledFrom(c13Names).Draw(rt, "name")}
 			if o.Kind == "restart" {
 				o.AfterClose = rapid.IntRange(0, 3).Draw(rt, "afterclose") == 0
 			}
